@@ -128,7 +128,7 @@ def check(name, tier, props):
     finally:
         sh(["git", "-C", "/repo", "checkout", "--", "."])
         # tables and skeletons regenerated from the patched sources must not stay behind
-        sh(["git", "-C", ROOT, "checkout", "--", "lean/Gpc/Generated"])
+        sh(["git", "-C", ROOT, "checkout", "--", "lean/Gpc/Generated", "evidence"])     # and the evidence of a mutant is not evidence
     out = os.path.join(d, "result.json")
     old = json.load(open(out)) if os.path.exists(out) else {}
     old[tier] = res
